@@ -283,9 +283,16 @@ pub fn c04_check(tier: Tier) -> Outcome {
     let lc = crate::c07_e2::loss_cells();
     let nlc = lc.len();
     let hl = std::thread::spawn(move || run_cells("c07_e2", lc, &crate::pool_opts(Tier::Quick)));
-    let rl = crate::c14::relay_cells("C04");
+    let mut rl = crate::c14::relay_cells("C04");
+    if tier == Tier::Thorough {
+        // the bundled client with -t 30: ONE receive attempt of the sending side lasts six of its 5-second retransmission
+        // intervals; it is still one failed attempt, after which the datagram is retransmitted (≈ 31 s of wall clock)
+        let mut s = crate::loopback::SrvCfg::basic();
+        s.overwrite = true;
+        rl.insert(0, json!({"srv": s.to_json(), "upload": true, "drop": 4, "t": 30, "property": "C04"}));
+    }
     let nrl = rl.len();
-    let hr = std::thread::spawn(move || run_cells("c14_relay", rl, &crate::pool_opts(Tier::Quick)));
+    let hr = std::thread::spawn(move || run_cells("c14_relay", rl, &crate::pool_opts(tier)));
     let cells = c04_cells(tier);
     let (a, b): (Vec<Value>, Vec<Value>) = cells.into_iter().partition(|c| c["mode"] == "A");
     let (na, nb) = (a.len(), b.len());
